@@ -153,17 +153,12 @@ Ltac pfw0 :=
 
 Ltac run_with p := bsteps; repeat first [progress gen_skips | p]; try mvfin.
 
-Section Prims.
-Variable text : bytes.
-Notation stream := Stream.stream.
-Notation wfl := (wfl text).
-Notation mvk := (mvk text).
 
-Lemma mv_consume_byte c s s' : consume_byte text c s = Ok s' -> wfl s -> mvk 1 s s'.
+Lemma mv_consume_byte text c s s' : consume_byte text c s = Ok s' -> wfl text s -> mvk text 1 s s'.
 Proof. unfold consume_byte. intros H W. run_with pfw0. Qed.
 
-Lemma mv_try_consume_byte c s b s' : try_consume_byte c s = (b, s') -> wfl s ->
-  mvk (if b then 1 else 0) s s'.
+Lemma mv_try_consume_byte text c s b s' : try_consume_byte c s = (b, s') -> wfl text s ->
+  mvk text (if b then 1 else 0) s s'.
 Proof.
   unfold try_consume_byte. intros H W.
   destruct (curr_byte_opt s); [|inversion H; subst; apply mvk_refl; assumption].
@@ -172,23 +167,23 @@ Proof.
   fwdm E mv_advance. mvfin.
 Qed.
 
-Lemma mv_skip_string p s s' : skip_string text p s = Ok s' -> wfl s -> mvk 0 s s'.
+Lemma mv_skip_string text p s s' : skip_string text p s = Ok s' -> wfl text s -> mvk text 0 s s'.
 Proof. unfold skip_string. intros H W. run_with pfw0. Qed.
 
-Lemma mv_consume_bytes f s sl s' : consume_bytes text f s = Ok (sl, s') -> wfl s -> mvk 0 s s'.
+Lemma mv_consume_bytes text f s sl s' : consume_bytes text f s = Ok (sl, s') -> wfl text s -> mvk text 0 s s'.
 Proof. unfold consume_bytes. intros H W. run_with pfw0. Qed.
 
-Lemma mv_consume_spaces s s' : consume_spaces text s = Ok s' -> wfl s -> mvk 0 s s'.
+Lemma mv_consume_spaces text s s' : consume_spaces text s = Ok s' -> wfl text s -> mvk text 0 s s'.
 Proof. unfold consume_spaces. intros H W. run_with pfw0. Qed.
 
-Lemma mv_advance_until2 a b s s' : advance_until2 a b s = Ok s' -> wfl s -> mvk 0 s s'.
+Lemma mv_advance_until2 text a b s s' : advance_until2 a b s = Ok s' -> wfl text s -> mvk text 0 s s'.
 Proof. unfold advance_until2. intros H W. run_with pfw0. Qed.
 
 Lemma next_char_len s c n : next_char s = Ok (Some (c, n)) -> 1 <= n.
 Proof. unfold next_char. intros H. bsteps. eapply decode1_len; eauto. Qed.
 
-Lemma mv_skip_chars_loop fuel : forall f s s', skip_chars_loop text fuel f s = Ok s' -> wfl s ->
-  mvk 0 s s' /\ (s' = s \/ s_pos s < s_pos s').
+Lemma mv_skip_chars_loop text fuel : forall f s s', skip_chars_loop text fuel f s = Ok s' -> wfl text s ->
+  mvk text 0 s s' /\ (s' = s \/ s_pos s < s_pos s').
 Proof.
   induction fuel; intros f s s' H W; [discriminate|].
   cbn [skip_chars_loop] in H. bsteps; try (split; [apply mvk_refl; assumption | left; reflexivity]).
@@ -197,51 +192,54 @@ Proof.
   split; [mvfin | right; lia].
 Qed.
 
-Lemma mv_skip_chars f s s' : skip_chars text f s = Ok s' -> wfl s ->
-  mvk 0 s s' /\ (s' = s \/ s_pos s < s_pos s').
+Lemma mv_skip_chars text f s s' : skip_chars text f s = Ok s' -> wfl text s ->
+  mvk text 0 s s' /\ (s' = s \/ s_pos s < s_pos s').
 Proof. unfold skip_chars. apply mv_skip_chars_loop. Qed.
 
-Lemma mv_consume_chars f s sl s' : consume_chars text f s = Ok (sl, s') -> wfl s ->
-  mvk 0 s s' /\ (s' = s \/ s_pos s < s_pos s').
+Lemma mv_skip_chars0 text f s s' : skip_chars text f s = Ok s' -> wfl text s -> mvk text 0 s s'.
+Proof. intros H W. eapply mv_skip_chars in H; [|eassumption]; tauto. Qed.
+
+Lemma mv_consume_chars text f s sl s' : consume_chars text f s = Ok (sl, s') -> wfl text s ->
+  mvk text 0 s s' /\ (s' = s \/ s_pos s < s_pos s').
 Proof.
-  unfold consume_chars. intros H W. bsteps. apply mv_skip_chars in Hb; assumption.
+  unfold consume_chars. intros H W. bsteps. eapply mv_skip_chars in Hb; eassumption.
 Qed.
 
-Lemma mv_consume_chars0 f s sl s' : consume_chars text f s = Ok (sl, s') -> wfl s -> mvk 0 s s'.
-Proof. intros H W. apply mv_consume_chars in H; tauto. Qed.
+Lemma mv_consume_chars0 text f s sl s' : consume_chars text f s = Ok (sl, s') -> wfl text s -> mvk text 0 s s'.
+Proof. intros H W. eapply mv_consume_chars in H; [|eassumption]; tauto. Qed.
 
-Lemma mv_skip_name_loop fuel : forall s s', skip_name_loop fuel s = Ok s' -> wfl s -> mvk 0 s s'.
+Lemma mv_skip_name_loop text fuel : forall s s', skip_name_loop fuel s = Ok s' -> wfl text s -> mvk text 0 s s'.
 Proof.
   induction fuel; intros s s' H W; [discriminate|].
   cbn [skip_name_loop] in H. bsteps; try (apply mvk_refl; assumption).
   fwdm Hb0 mv_advance. apply IHfuel in H; [|assumption]. destruct H as (? & ? & ?). mvfin.
 Qed.
 
-Lemma mv_skip_name s s' : skip_name text s = Ok s' -> wfl s -> mvk 0 s s'.
+Lemma mv_skip_name text s s' : skip_name text s = Ok s' -> wfl text s -> mvk text 0 s s'.
 Proof.
   unfold skip_name. intros H W. bsteps; try (apply mvk_refl; assumption).
-  fwdm Hb0 mv_advance. apply mv_skip_name_loop in H; [|assumption]. destruct H as (? & ? & ?). mvfin.
+  fwdm Hb0 mv_advance. eapply mv_skip_name_loop in H; [|eassumption]. destruct H as (? & ? & ?). mvfin.
 Qed.
 
 Ltac pfw1 :=
   idtac; first [ pfw0 |
   match goal with
-  | W : wfl ?s, H : consume_byte _ _ ?s = Ok _ |- _ => fwdm H mv_consume_byte
-  | W : wfl ?s, H : try_consume_byte _ ?s = (_, _) |- _ => fwdm H mv_try_consume_byte
-  | W : wfl ?s, H : skip_string _ _ ?s = Ok _ |- _ => fwdm H mv_skip_string
-  | W : wfl ?s, H : consume_bytes _ _ ?s = Ok _ |- _ => fwdm H mv_consume_bytes
-  | W : wfl ?s, H : consume_spaces _ ?s = Ok _ |- _ => fwdm H mv_consume_spaces
-  | W : wfl ?s, H : advance_until2 _ _ ?s = Ok _ |- _ => fwdm H mv_advance_until2
-  | W : wfl ?s, H : skip_chars _ _ ?s = Ok _ |- _ => fwdm H mv_skip_chars
-  | W : wfl ?s, H : consume_chars _ _ ?s = Ok _ |- _ => fwdm H mv_consume_chars0
-  | W : wfl ?s, H : skip_name _ ?s = Ok _ |- _ => fwdm H mv_skip_name
+  | W : wfl _ ?s, H : consume_byte _ _ ?s = Ok _ |- _ => fwdm H mv_consume_byte
+  | W : wfl _ ?s, H : try_consume_byte _ ?s = (_, _) |- _ => fwdm H mv_try_consume_byte
+  | W : wfl _ ?s, H : skip_string _ _ ?s = Ok _ |- _ => fwdm H mv_skip_string
+  | W : wfl _ ?s, H : consume_bytes _ _ ?s = Ok _ |- _ => fwdm H mv_consume_bytes
+  | W : wfl _ ?s, H : consume_spaces _ ?s = Ok _ |- _ => fwdm H mv_consume_spaces
+  | W : wfl _ ?s, H : advance_until2 _ _ ?s = Ok _ |- _ => fwdm H mv_advance_until2
+  | W : wfl _ ?s, H : skip_chars _ _ ?s = Ok _ |- _ => fwdm H mv_skip_chars0
+  | W : wfl _ ?s, H : consume_chars _ _ ?s = Ok _ |- _ => fwdm H mv_consume_chars0
+  | W : wfl _ ?s, H : skip_name _ ?s = Ok _ |- _ => fwdm H mv_skip_name
   end ].
 
-Lemma mv_consume_name s sl s' : consume_name text s = Ok (sl, s') -> wfl s -> mvk 0 s s'.
+Lemma mv_consume_name text s sl s' : consume_name text s = Ok (sl, s') -> wfl text s -> mvk text 0 s s'.
 Proof. unfold consume_name. intros H W. run_with pfw1. Qed.
 
-Lemma mv_consume_qname_loop fuel : forall st sp s sp' s',
-  consume_qname_loop text fuel st sp s = Ok (sp', s') -> wfl s -> mvk 0 s s'.
+Lemma mv_consume_qname_loop text fuel : forall st sp s sp' s',
+  consume_qname_loop text fuel st sp s = Ok (sp', s') -> wfl text s -> mvk text 0 s s'.
 Proof.
   induction fuel; intros st sp s sp' s' H W; [discriminate|].
   cbn [consume_qname_loop] in H. bsteps; try (apply mvk_refl; assumption);
@@ -249,77 +247,71 @@ Proof.
   (apply IHfuel in H; [|assumption]); destruct H as (? & ? & ?); mvfin.
 Qed.
 
-Lemma mv_consume_qname s p l s' : consume_qname text s = Ok (p, l, s') -> wfl s -> mvk 0 s s'.
+Lemma mv_consume_qname text s p l s' : consume_qname text s = Ok (p, l, s') -> wfl text s -> mvk text 0 s s'.
 Proof.
   unfold consume_qname. intros H W. bsteps;
-  (apply mv_consume_qname_loop in Hb; [|assumption]); exact Hb.
+  (eapply mv_consume_qname_loop in Hb; [|eassumption]); exact Hb.
 Qed.
 
-Lemma mv_consume_eq s s' : consume_eq text s = Ok s' -> wfl s -> mvk 0 s s'.
+Lemma mv_consume_eq text s s' : consume_eq text s = Ok s' -> wfl text s -> mvk text 0 s s'.
 Proof. unfold consume_eq. intros H W. run_with pfw1. Qed.
 
-Lemma mv_consume_quote s q s' : consume_quote text s = Ok (q, s') -> wfl s -> mvk 0 s s'.
+Lemma mv_consume_quote text s q s' : consume_quote text s = Ok (q, s') -> wfl text s -> mvk text 0 s s'.
 Proof. unfold consume_quote. intros H W. run_with pfw1. Qed.
 
 Ltac pfw2 :=
   idtac; first [ pfw1 |
   match goal with
-  | W : wfl ?s, H : consume_name _ ?s = Ok _ |- _ => fwdm H mv_consume_name
-  | W : wfl ?s, H : consume_qname _ ?s = Ok _ |- _ => fwdm H mv_consume_qname
-  | W : wfl ?s, H : consume_eq _ ?s = Ok _ |- _ => fwdm H mv_consume_eq
-  | W : wfl ?s, H : consume_quote _ ?s = Ok _ |- _ => fwdm H mv_consume_quote
+  | W : wfl _ ?s, H : consume_name _ ?s = Ok _ |- _ => fwdm H mv_consume_name
+  | W : wfl _ ?s, H : consume_qname _ ?s = Ok _ |- _ => fwdm H mv_consume_qname
+  | W : wfl _ ?s, H : consume_eq _ ?s = Ok _ |- _ => fwdm H mv_consume_eq
+  | W : wfl _ ?s, H : consume_quote _ ?s = Ok _ |- _ => fwdm H mv_consume_quote
   end ].
 
 (* a successful reference consumed at least "&" and ";" *)
-Lemma mv_consume_reference s r s' : consume_reference text s = Ok (Some (r, s')) -> wfl s ->
-  mvk 2 s s'.
+Lemma mv_consume_reference text s r s' : consume_reference text s = Ok (Some (r, s')) -> wfl text s ->
+  mvk text 2 s s'.
 Proof.
   unfold consume_reference. intros H W. run_with pfw2;
   repeat match goal with b : bool |- _ => destruct b end; try discriminate; mvfin.
 Qed.
 
-End Prims.
 
-Section TokPrims.
-Variable text : bytes.
-Notation wfl := (wfl text).
-Notation mvk := (mvk text).
 
-Lemma mv_parse_attribute s s' : parse_attribute text s = Ok s' -> wfl s -> mvk 0 s s'.
+Lemma mv_parse_attribute text s s' : parse_attribute text s = Ok s' -> wfl text s -> mvk text 0 s s'.
 Proof. unfold parse_attribute. intros H W. run_with pfw2. Qed.
 
-Lemma mv_decl_consume_spaces s s' : decl_consume_spaces text s = Ok s' -> wfl s -> mvk 0 s s'.
+Lemma mv_decl_consume_spaces text s s' : decl_consume_spaces text s = Ok s' -> wfl text s -> mvk text 0 s s'.
 Proof. unfold decl_consume_spaces. intros H W. run_with pfw2; apply mvk_refl; assumption. Qed.
 
 Ltac pfw3 :=
   idtac; first [ pfw2 |
   match goal with
-  | W : wfl ?s, H : parse_attribute _ ?s = Ok _ |- _ => fwdm H mv_parse_attribute
-  | W : wfl ?s, H : decl_consume_spaces _ ?s = Ok _ |- _ => fwdm H mv_decl_consume_spaces
+  | W : wfl _ ?s, H : parse_attribute _ ?s = Ok _ |- _ => fwdm H mv_parse_attribute
+  | W : wfl _ ?s, H : decl_consume_spaces _ ?s = Ok _ |- _ => fwdm H mv_decl_consume_spaces
   end ].
 
-Lemma mv_parse_declaration s s' : parse_declaration text s = Ok s' -> wfl s -> mvk 0 s s'.
+Lemma mv_parse_declaration text s s' : parse_declaration text s = Ok s' -> wfl text s -> mvk text 0 s s'.
 Proof. unfold parse_declaration. intros H W. run_with pfw3. Qed.
 
-Lemma mv_parse_external_id s b s' : parse_external_id text s = Ok (b, s') -> wfl s -> mvk 0 s s'.
+Lemma mv_parse_external_id text s b s' : parse_external_id text s = Ok (b, s') -> wfl text s -> mvk text 0 s s'.
 Proof. unfold parse_external_id. intros H W. run_with pfw3; apply mvk_refl; assumption. Qed.
 
 Ltac pfw4 :=
   idtac; first [ pfw3 |
   match goal with
-  | W : wfl ?s, H : parse_external_id _ ?s = Ok _ |- _ => fwdm H mv_parse_external_id
+  | W : wfl _ ?s, H : parse_external_id _ ?s = Ok _ |- _ => fwdm H mv_parse_external_id
   end ].
 
-Lemma mv_parse_entity_def s g o s' : parse_entity_def text s g = Ok (o, s') -> wfl s -> mvk 0 s s'.
+Lemma mv_parse_entity_def text s g o s' : parse_entity_def text s g = Ok (o, s') -> wfl text s -> mvk text 0 s s'.
 Proof. unfold parse_entity_def. intros H W. run_with pfw4. Qed.
 
-Lemma mv_consume_decl s s' : consume_decl text s = Ok s' -> wfl s -> mvk 0 s s'.
+Lemma mv_consume_decl text s s' : consume_decl text s = Ok s' -> wfl text s -> mvk text 0 s s'.
 Proof. unfold consume_decl. intros H W. run_with pfw4. Qed.
 
-Lemma mv_parse_doctype_start s s' : parse_doctype_start text s = Ok s' -> wfl s -> mvk 0 s s'.
+Lemma mv_parse_doctype_start text s s' : parse_doctype_start text s = Ok s' -> wfl text s -> mvk text 0 s s'.
 Proof. unfold parse_doctype_start. intros H W. run_with pfw4. Qed.
 
-End TokPrims.
 
 Ltac pfw :=
   idtac; first [ pfw2 |
